@@ -367,6 +367,10 @@ impl ConvexCell<WithoutFaces> {
         let mut num_r = 0;
         while i < num_v {
             let mut clip = p.clip(self.vertices[i].loc);
+            #[cfg(meshless_voro_verif)]
+            let verif_filter = clip;
+            #[cfg(meshless_voro_verif)]
+            let mut verif_exact_args = None;
             if clip == 0. {
                 // Do the equivalent in-sphere test to determine whether a vertex is clipped
                 let dual = self.vertices[i].dual;
@@ -379,7 +383,19 @@ impl ConvexCell<WithoutFaces> {
                     .iloc(self.clipping_planes[dual[2]].right_loc(self.idx, generators));
                 let v = simulation_boundary.iloc(p.right_loc(self.idx, generators));
                 clip = in_sphere_test_exact(&a, &b, &c, &d, &v);
+                #[cfg(meshless_voro_verif)]
+                {
+                    verif_exact_args = Some([a, b, c, d, v]);
+                }
             }
+            #[cfg(meshless_voro_verif)]
+            crate::verif_hooks::trace_decision(
+                self.idx,
+                self.vertices[i].dual,
+                verif_filter,
+                verif_exact_args,
+                clip,
+            );
             if clip < 0. {
                 num_v -= 1;
                 num_r += 1;
@@ -416,6 +432,26 @@ impl ConvexCell<WithoutFaces> {
             }
             self.update_safety_radius();
         }
+    }
+
+    #[cfg(meshless_voro_verif)]
+    pub fn verif_init(loc: DVec3, idx: usize, simulation_boundary: &SimulationBoundary) -> Self {
+        Self::init(loc, idx, simulation_boundary)
+    }
+
+    #[cfg(meshless_voro_verif)]
+    pub fn verif_clip(
+        &mut self,
+        p: HalfSpace,
+        generators: &[Generator],
+        simulation_boundary: &SimulationBoundary,
+    ) {
+        self.clip_by_plane(p, generators, simulation_boundary)
+    }
+
+    #[cfg(meshless_voro_verif)]
+    pub fn verif_safety_radius(&self) -> f64 {
+        self.safety_radius
     }
 
     fn compute_boundary(boundary: &mut SimpleCycle, vertices: &mut [Vertex]) {
